@@ -167,10 +167,15 @@ theorem BundlePropertyExperimenter_unmarshal_post (recv : V) (d : Slice) (hd : d
       simp only [makeCopy_length', UInt16.toNat_mul, UInt16.toNat_div, UInt16.toNat_add, n16, UInt16.toNat_ofNat', h12, h7, h8]
       omega
 
-/-- BundleAdd: the embedded message is parsed by `parseF`, the property loop advances by at least 8 bytes -/
+theorem BundlePropertyExperimenter_unmarshal_ns (recv : V) (d : Slice) : NS (BundlePropertyExperimenter.unmarshal recv d) := by
+  unfold BundlePropertyExperimenter.unmarshal; post_auto
+theorem BundlePropertyExperimenter_len_ns (v : V) : NS (BundlePropertyExperimenter.len v) := by
+  unfold BundlePropertyExperimenter.len; post_auto
+
+/-- BundleAdd: the embedded message is parsed by `parseF`, the property loop refuses a property of size 0 -/
 theorem BundleAdd_unmarshalWith_ns (parseF : Slice → R V) (childLen : MsgLenF)
     (hparse : ∀ d : Slice, d.WF → NS (parseF d))
-    (recv : V) (data : Slice) (hlen : data.len ≤ 65528) :
+    (recv : V) (data : Slice) :
     NS (BundleAdd.unmarshalWith parseF childLen recv data) := by
   unfold BundleAdd.unmarshalWith
   split
@@ -193,16 +198,16 @@ theorem BundleAdd_unmarshalWith_ns (parseF : Slice → R V) (childLen : MsgLenF)
             · refine (goLoop_post _ _ _ (fun _ => True) data.len ?_ _ _ trivial ?_).ns
               · intro s _ hc
                 simp only [decide_eq_true_eq] at hc
-                apply post_bind (P := fun dp => dp.len ≤ 65528) ?_ ?_
-                · refine ⟨(ns_fromR _ _).1, fun dp hdp => ?_⟩
-                  have := fromR_inv _ _ _ hdp
+                apply post_bind_ns (ns_fromR _ _); intro dp _
+                apply post_bind_ns (BundlePropertyExperimenter_unmarshal_ns _ _); intro pr _
+                apply post_bind_ns (BundlePropertyExperimenter_len_ns _); intro l _
+                split
+                · exact post_err
+                · rename_i hne
+                  have : l.toNat ≠ 0 := fun h => hne (UInt16.toNat_inj.mp h)
+                  apply post_ok
+                  simp only [true_and]
                   omega
-                intro dp _ hdp
-                apply post_bind (BundlePropertyExperimenter_unmarshal_post _ _ hdp); intro pr _ ⟨l, hl, hpos⟩
-                rw [hl]
-                apply post_ok
-                simp only [true_and]
-                omega
               · simp only []; omega
             · intro st _; post_auto
           · post_auto
@@ -210,16 +215,16 @@ theorem BundleAdd_unmarshalWith_ns (parseF : Slice → R V) (childLen : MsgLenF)
 
 theorem decodeVendorDataWith_ns (parseF : Slice → R V) (childLen : MsgLenF)
     (hparse : ∀ d : Slice, d.WF → NS (parseF d))
-    (ty : Nat) (data : Slice) (hlen : data.len ≤ 65528) :
+    (ty : Nat) (data : Slice) :
     NS (decodeVendorDataWith parseF childLen ty data) := by
   unfold decodeVendorDataWith
   post_auto [ControllerID_unmarshal_ns, TLVTableMod_unmarshal_ns, TLVTableReply_unmarshal_ns, BundleControl_unmarshal_ns]
-  exact BundleAdd_unmarshalWith_ns parseF childLen hparse _ _ hlen
+  exact BundleAdd_unmarshalWith_ns parseF childLen hparse _ _
 
 /-- the experimenter message (decoded into `new(VendorHeader)` as Parse does): its payload `data[16:Header.Length]`
     is at most 65519 bytes long -/
 theorem VendorHeader_unmarshalWith_ns (decVD : Nat → Slice → R V)
-    (hdec : ∀ ty (d : Slice), d.len ≤ 65528 → NS (decVD ty d))
+    (hdec : ∀ ty (d : Slice), NS (decVD ty d))
     (data : Slice) : NS (VendorHeader.unmarshalWith decVD VendorHeader.zero data) := by
   simp only [VendorHeader.unmarshalWith, VendorHeader.zero]
   split
@@ -231,12 +236,8 @@ theorem VendorHeader_unmarshalWith_ns (decVD : Nat → Slice → R V)
     apply post_bind_ns (ns_u32From _ _); intro _ _
     apply post_bind_ns (ns_u32From _ _); intro t _
     split
-    · apply post_bind (P := fun s => s.len ≤ 65528) ?_ ?_
-      · refine ⟨(ns_sliceR _ _ _).1, fun s hs => ?_⟩
-        have := sliceR_inv _ _ _ _ hs
-        omega
-      intro s _ hs
-      apply post_bind_ns (hdec _ s hs); intro _ _
+    · apply post_bind_ns (ns_sliceR _ _ _); intro s _
+      apply post_bind_ns (hdec _ s); intro _ _
       post_auto
     · post_auto
 
@@ -378,7 +379,7 @@ theorem parseStep_ns (hEth : ∀ recv (d : Slice), d.WF → NS (PEthernet.unmars
     exact post_ite (fun _ => VendorError_unmarshal_ns _ _) (fun _ => ns_pure _)
   refine post_ite (fun _ => Header_unmarshal_ns _ _) (fun _ => ?_)
   refine post_ite (fun _ => VendorHeader_unmarshalWith_ns _
-      (fun ty d hl => decodeVendorDataWith_ns self anyLenM hself ty d hl) _) (fun _ => ?_)
+      (fun ty d => decodeVendorDataWith_ns self anyLenM hself ty d) _) (fun _ => ?_)
   refine post_ite (fun _ => Header_unmarshal_ns _ _) (fun _ => ?_)
   refine post_ite (fun _ => SwitchFeatures_unmarshal_ns _ _) (fun _ => ?_)
   refine post_ite (fun _ => SwitchConfig_unmarshal_ns _ _) (fun _ => ?_)
